@@ -25,8 +25,7 @@ func (e *Exec) newChan(et types.Type, n int) *ChanObj {
 
 func (c *ChanObj) recvReady() bool { return c != nil && (len(c.buf) > 0 || c.closed) }
 
-func (e *Exec) hasWaitingReceiver(c *ChanObj) bool {
-	me := e.sch.cur
+func (e *Exec) hasWaitingReceiver(c *ChanObj, me *Thread) bool {
 	for _, t := range e.sch.threads {
 		if t == me || t.done || t.pred == nil {
 			continue
@@ -41,7 +40,7 @@ func (e *Exec) hasWaitingReceiver(c *ChanObj) bool {
 }
 
 // sendReady: may the current thread complete a send on c now? (panics for closed channels are raised by the caller)
-func (e *Exec) sendReady(c *ChanObj) bool {
+func (e *Exec) sendReady(c *ChanObj, self *Thread) bool {
 	if c == nil {
 		return false
 	}
@@ -49,7 +48,7 @@ func (e *Exec) sendReady(c *ChanObj) bool {
 		return true // will panic
 	}
 	if c.cap == 0 {
-		return len(c.buf) == 0 && e.hasWaitingReceiver(c)
+		return len(c.buf) == 0 && e.hasWaitingReceiver(c, self)
 	}
 	return len(c.buf) < c.cap
 }
@@ -129,7 +128,8 @@ func (e *Exec) visitChan(fr *frame, instr ssa.Instruction) bool {
 		return true
 	case *ssa.Send:
 		c, _ := e.get(fr, ins.Chan).(*ChanObj)
-		e.yield(func() bool { return e.sendReady(c) }, "chan send")
+		self := e.sch.cur
+		e.yield(func() bool { return e.sendReady(c, self) }, "chan send")
 		e.doSend(c, e.get(fr, ins.X))
 		return true
 	case *ssa.Select:
@@ -153,11 +153,11 @@ type selCase struct {
 	val  Value
 }
 
-func (e *Exec) selectReady(cases []selCase) []int {
+func (e *Exec) selectReady(cases []selCase, self *Thread) []int {
 	var ready []int
 	for i, sc := range cases {
 		if sc.send {
-			if e.sendReady(sc.c) {
+			if e.sendReady(sc.c, self) {
 				ready = append(ready, i)
 			}
 		} else if sc.c.recvReady() {
@@ -178,12 +178,12 @@ func (e *Exec) runSelect(cases []selCase, blocking bool) (int, Value, bool) {
 	}
 	if blocking {
 		me.waitRecv = wr
-		e.yield(func() bool { return len(e.selectReady(cases)) > 0 }, "select")
+		e.yield(func() bool { return len(e.selectReady(cases, me)) > 0 }, "select")
 	} else {
 		e.yield(nil, "select(default)")
 	}
 	me.waitRecv = nil
-	ready := e.selectReady(cases)
+	ready := e.selectReady(cases, me)
 	if len(ready) == 0 {
 		if blocking {
 			panic("select: nothing ready after yield")
@@ -191,7 +191,7 @@ func (e *Exec) runSelect(cases []selCase, blocking bool) (int, Value, bool) {
 		return -1, nil, false
 	}
 	idx := ready[0]
-	if len(ready) > 1 {
+	if len(ready) > 1 && !e.selectFirst {
 		idx = ready[e.choose(len(ready), "select")]
 	}
 	sc := cases[idx]
